@@ -233,8 +233,6 @@ class SimE(Simulator):
             if r < 0.25:
                 ops.append(["inject", rng.choice(["LongA: 6", "LongB: 6", "LongC: 5", "Ramp: 5", "Simulate: PV1 = 4 L/h",
                                                   "Boom", "BadArgs: 1", "BoomInit"])])
-            elif r < 0.35:
-                ops.append(["cancel", rng.randint(0, 20), "offered"])
             elif r < 0.75:
                 ops.append(["user", rng.choice(["Stop", "Restart", "Restart"])])
                 ops.append(["tick", rng.choice([1, 2, 3, 5]), 0.1])
@@ -292,8 +290,6 @@ class SimE(Simulator):
                 for _ in range(rng.randint(2, 5)):
                     ops.append(["user", rng.choice(CONTROL)])
         ops.append(["tick", 5, 0.1])
-        ops.append(["user", "Stop"])
-        ops.append(["tick", 4, 0.1])
         ops.append(["stop_check"])
         return {"cfg": {"recovery": False, "runlog_every": 2, "wellformed": False}, "method": method, "ops": ops}
 
